@@ -17,6 +17,7 @@ _mon = sys.monitoring
 TOOL = 3
 _state = dict(tool=False, line_codes=set(), instr_codes=set())
 _active = None          # the Scheduler of the run in progress (or None)
+_line_hook = None       # histsim: callable(code, line) run in the main thread
 
 
 class SimAbort(BaseException):
@@ -591,6 +592,10 @@ def _line_cb(code, line):
     s = _active
     if s is not None:
         s.yield_point("line")
+        return
+    h = _line_hook
+    if h is not None:
+        h(code, line)
 
 
 def _instr_cb(code, offset):
